@@ -44,6 +44,53 @@ def shape_map_for(kind, classes, preds):
     return ('SPARQL "select ?s where { ?s a <%s> }"@<S0>\n{FOCUS <%s> _}@<K>' % (classes[0], preds[0]))
 
 
+PRIORITY = ["", "weso-s", "shapes", "w-shapes"]     # the four default prefixes of the property text, in order
+_SHAPES_PREFIX = re.compile(r"^PREFIX (\S*): <http://weso\.es/shapes/>\s*$", re.M)
+
+
+def shapes_prefix(text):
+    m = _SHAPES_PREFIX.search(text)
+    return m.group(1) if m else None
+
+
+def abstract_prefix(text, pfx):
+    """the ShExC text with the prefix of the shapes namespace replaced by a fixed mark (PREFIX line, shape
+    labels, shape references): what must not depend on the process when the prefix itself may be random"""
+    text = _SHAPES_PREFIX.sub("PREFIX \u00a7: <http://weso.es/shapes/>", text)
+    return re.sub(r"(^|[\s@\[(])" + re.escape(pfx) + r":(?=[^\s/])", "\\1\u00a7:", text, flags=re.M)
+
+
+_SUBJ = re.compile(r'^<([^>]*)>\s')
+SHAPES = "http://shapes.org/"
+
+
+def nodes_of(g):
+    """subject IRIs in document order (graph dictionaries written before the mix_* kinds carry no node list)"""
+    if g.get("nodes"):
+        return list(g["nodes"])
+    out = []
+    for l in g["nt"].splitlines():
+        m = _SUBJ.match(l)
+        if m and m.group(1) not in out:
+            out.append(m.group(1))
+    return out
+
+
+def mixed_shape_map(kind, g):
+    """shape maps for the runs WITH all_classes_mode (MixedInstanceTracker): they select a few nodes from the
+    middle and the end of the document, so that most typed nodes are known to the class tracker only and the
+    selected ones come first in the merged instance dictionary although the document has them later"""
+    nodes, classes, preds = nodes_of(g), g["classes"], g["preds"]
+    picked = [nodes[len(nodes) // 2], nodes[-1]] if len(nodes) > 1 else nodes
+    if kind == "mix_node":
+        return "\n".join("<%s>@<%sHub>" % (n, SHAPES) for n in picked)
+    if kind == "mix_focus":
+        return "{FOCUS a <%s>}@<%sS0>\n<%s>@<%sHub>" % (classes[-1], SHAPES, picked[0], SHAPES)
+    if kind == "mix_sparql":
+        return 'SPARQL "select ?s where { ?s <%s> ?o }"@<%sK>' % (preds[0], SHAPES)
+    raise ValueError(kind)
+
+
 def build_kwargs(case, graphs, workdir):
     import rdflib
     g = graphs[case["graph"]]
@@ -67,6 +114,17 @@ def build_kwargs(case, graphs, workdir):
     elif kind in ("sm_focus", "sm_sparql", "sm_mixed"):
         kw = dict(raw_graph=nt, shape_map_raw=shape_map_for(kind, classes, preds), examples_mode="all",
                   inverse_paths=(kind == "sm_mixed"))
+    elif kind in ("mix_node", "mix_focus", "mix_sparql"):
+        # shape map AND all_classes_mode: the only configuration that builds a MixedInstanceTracker
+        kw = dict(raw_graph=nt, shape_map_raw=mixed_shape_map(kind, g), all_classes_mode=True)
+        if kind == "mix_focus":
+            kw.update(examples_mode="all", instances_report_mode="mixed")
+        elif kind == "mix_sparql":
+            kw.update(inverse_paths=True, detect_minimal_iri=True)
+    elif kind.startswith("pfx_"):
+        # pfx_<b0b1b2b3>: the i-th default prefix of the shapes namespace is bound by the user iff b_i = 1
+        kw = dict(raw_graph=nt, all_classes_mode=True,
+                  namespaces_dict={"http://n%d.org/" % i: PRIORITY[i] for i in range(4) if kind[4 + i] == "1"})
     elif kind == "prefixes3":
         kw = dict(raw_graph=nt, all_classes_mode=True,
                   namespaces_dict={"http://a.org/": "", "http://b.org/": "weso-s", "http://c.org/": "w-shapes"})
@@ -111,8 +169,18 @@ def run_case(case, graphs, workdir):
     sh = Shaper(**kw)
     text = sh.shex_graph(string_output=True, output_format=case["fmt"])
     if case["fmt"] == "Shacl":
-        text = shacl_canon(text)
+        text = shacl_canon(text)       # the @prefix lines and a hash of the graph
+        if case["kind"] == "pfx_1111":  # all four taken: the prefix may be random, the graph may not
+            text = re.sub(r"(?m)^@prefix \S*: <http://weso\.es/shapes/> \.\n", "", text)   # (its place in the sorted lines moves too)
+    elif case["kind"].startswith("pfx_"):
+        pfx = shapes_prefix(text)
+        INFO[case["id"]] = {"shape_prefix": pfx}
+        if case["kind"] == "pfx_1111" and pfx is not None:     # all four taken: the prefix may be random, the rest not
+            text = abstract_prefix(text, pfx)
     return hashlib.sha256(text.encode("utf-8")).hexdigest(), text
+
+
+INFO = {}
 
 
 def main():
@@ -133,7 +201,7 @@ def main():
             out[case["id"]] = "EXC %s: %s" % (type(e).__name__, str(e)[:100])
         finally:
             signal.setitimer(signal.ITIMER_REAL, 0)
-    sys.stdout.write("\n" + json.dumps({"seed": os.environ.get("PYTHONHASHSEED"), "digests": out}) + "\n")
+    sys.stdout.write("\n" + json.dumps({"seed": os.environ.get("PYTHONHASHSEED"), "digests": out, "info": INFO}) + "\n")
 
 
 if __name__ == "__main__":
